@@ -1,7 +1,510 @@
-//! C10 — not built yet (stub keeps the registry stable while modules are written in parallel).
+//! C10 — macro expansion respects lexical scope across stages (hygiene).
+//!
+//! Metamorphic oracle: a program P that uses macros whose quoted bodies bind locals, and P' = P with
+//! those binders consistently renamed to globally fresh names, must be accepted alike and produce
+//! bitwise equal output.  Secondary: P equals its capture-avoiding hand expansion (computed by the
+//! harness, `c09_stage.rs`).
 
-use crate::engine::case::Prop;
+use crate::engine::case::*;
+use crate::engine::rng::hash64;
+use crate::engine::tape::Gen;
+use crate::runners::exec::{self, canon, Exec, Inputs, RunOpts};
+use serde_json::{json, Value};
+use std::collections::BTreeSet;
+
+#[path = "c09_stage.rs"]
+mod stage;
+use stage::*;
+
+pub struct C10;
 
 pub fn prop() -> Option<&'static dyn Prop> {
+    Some(&C10)
+}
+
+/// a binder inside a quoted macro body captures same-named free variables of code spliced in its scope
+pub const KF_SPLICE: &str = "C10-spliced-code-captured-by-macro-binder";
+/// a `let` inside a `{}` block stays visible after the block (plain and generated code alike), so a
+/// macro's local captures later mentions of the name in the surrounding code
+pub const KF_LEAK: &str = "C10-block-let-leaks-into-enclosing-scope";
+/// `self` is a reference to a variable literally named feed_id<depth>; a user/macro binder of that name captures it
+pub const KF_FEED: &str = "C10-variable-named-feed-id-captures-self";
+/// nested tuple patterns inside quotes are flattened through temporaries named __dt<n>
+pub const KF_DT: &str = "C10-tuple-pattern-temp-captures-user-variable";
+/// record update inside a quote binds a temporary named record_update_temp
+pub const KF_RECUPD: &str = "C10-record-update-temp-captures-user-variable";
+
+enum Got {
+    Ran(Vec<Vec<u64>>),
+    Rejected(String),
+    Panic(String, String),
+    Other(String),
+}
+
+fn vm(src: &str, n: u64) -> Got {
+    match exec::run_vm(src, &Inputs { kind: 0, scale: 1.0 }, &RunOpts { n, sched: false, want_state: false, want_counts: false, want_trace: false }) {
+        Exec::Ran(r) => Got::Ran(r.samples),
+        Exec::Rejected(d) => Got::Rejected(d.iter().map(|x| x.message.clone()).collect::<Vec<_>>().join(" | ")),
+        Exec::Panic(stage, p) => Got::Panic(format!("{}:{}", if stage.starts_with("dsp@") { "dsp" } else { stage.as_str() }, p.signature()), format!("{stage}: {}", p.describe())),
+        Exec::NoIo => Got::Other("no dsp I/O information".into()),
+        Exec::Error(s, e) => Got::Other(format!("{s}: {e}")),
+    }
+}
+
+fn first_diff(a: &[Vec<u64>], b: &[Vec<u64>]) -> Option<String> {
+    if a.len() != b.len() {
+        return Some(format!("{} samples vs {}", a.len(), b.len()));
+    }
+    for (t, (x, y)) in a.iter().zip(b.iter()).enumerate() {
+        if x.len() != y.len() {
+            return Some(format!("sample {t}: {} channels vs {}", x.len(), y.len()));
+        }
+        for ch in 0..x.len() {
+            if canon(x[ch]) != canon(y[ch]) {
+                return Some(format!("sample {t} channel {ch}: {:?} vs {:?}", f64::from_bits(x[ch]), f64::from_bits(y[ch])));
+            }
+        }
+    }
     None
+}
+
+struct Outc {
+    fail: Option<(String, String)>,
+    discard: Option<String>,
+    compiled: bool,
+    both_rejected: bool,
+    hygienic_compared: bool,
+}
+
+/// `sig_differs`: signature when the outputs differ after renaming.
+fn judge(p: &str, renamed: &str, hygienic: Option<&str>, n: u64, sig_differs: &str, sig_accept: &str, model: &str) -> Outc {
+    let mut o = Outc { fail: None, discard: None, compiled: false, both_rejected: false, hygienic_compared: false };
+    macro_rules! fail {
+        ($sig:expr, $($arg:tt)*) => {{ o.fail = Some(($sig.to_string(), format!($($arg)*))); return o; }};
+    }
+    let a = vm(p, n);
+    let b = vm(renamed, n);
+    let sa = match (&a, &b) {
+        (Got::Ran(x), Got::Ran(y)) => {
+            o.compiled = true;
+            if let Some(d) = first_diff(x, y) {
+                fail!(sig_differs, "renaming the binder(s) changes the output: original vs renamed: {d}");
+            }
+            x.clone()
+        }
+        (Got::Rejected(_), Got::Rejected(_)) => {
+            o.both_rejected = true;
+            return o;
+        }
+        (Got::Panic(s1, _), Got::Panic(s2, _)) if s1 == s2 => {
+            o.discard = Some(format!("both-crash:{s1}"));
+            return o;
+        }
+        (Got::Other(w), Got::Other(_)) => {
+            o.discard = Some(format!("both-unusable:{}", crate::engine::panics::normalise(w)));
+            return o;
+        }
+        (Got::Rejected(d), Got::Ran(_)) => fail!(sig_accept, "the original is rejected ({d}), the renamed program compiles and runs"),
+        (Got::Ran(_), Got::Rejected(d)) => fail!(sig_accept, "the original compiles and runs, the renamed program is rejected ({d})"),
+        (Got::Panic(s, d), Got::Ran(_)) => fail!(format!("c10:panic:{s}"), "the original panics at {d}; the renamed program compiles and runs"),
+        (Got::Ran(_), Got::Panic(s, d)) => fail!(format!("c10:panic:{s}"), "the renamed program panics at {d}; the original compiles and runs"),
+        (x, y) => fail!(sig_accept, "original: {}; renamed: {}", kind(x), kind(y)),
+    };
+    if let Some(h) = hygienic {
+        if let Got::Ran(sh) = vm(h, n) {
+            o.hygienic_compared = true;
+            if let Some(d) = first_diff(&sa, &sh) {
+                fail!(format!("c10:differs-from-hygienic-expansion:{model}"), "program vs its capture-avoiding hand expansion: {d}");
+            }
+        }
+    }
+    o
+}
+
+fn kind(g: &Got) -> String {
+    match g {
+        Got::Ran(_) => "runs".into(),
+        Got::Rejected(d) => format!("rejected ({d})"),
+        Got::Panic(_, d) => format!("panics ({d})"),
+        Got::Other(w) => format!("unusable ({w})"),
+    }
+}
+
+struct G10 {
+    case: Case,
+    /// expansion by plain substitution (what a name-based expander produces)
+    naive: (Option<X>, X),
+    hyg: (Option<X>, X),
+    /// capture predicted by name-based substitution with proper block scoping
+    cap_splice: Option<&'static str>,
+    /// capture predicted once `let` leaks out of blocks
+    cap_leak: Option<&'static str>,
+    /// capture of `self` by a binder named feed_id<depth>
+    cap_feed: Option<&'static str>,
+    /// a nested tuple pattern occurs (the whole staged program is quoted code) and the name __dt0 is used: the outcome depends on
+    /// how many such patterns this thread has translated before (temporaries are named __dt<counter>)
+    dt_sensitive: bool,
+    n: u64,
+    in_fn: bool,
+    avoided: u64,
+}
+
+fn bodies<'a>(e: &'a (Option<X>, X)) -> Vec<&'a X> {
+    let mut v: Vec<&X> = vec![];
+    if let Some(k) = &e.0 {
+        v.push(k);
+    }
+    v.push(&e.1);
+    v
+}
+
+fn gen10(g: &mut Gen, avoid_splice: bool) -> Option<G10> {
+    let mut sg = SG::new(g, true);
+    sg.lam_templates = true;
+    sg.max_num = 3;
+    let mut uses = vec![];
+    let nm = 1 + sg.g.bool(1, 3) as usize;
+    for _ in 0..nm {
+        let u = sg.add_param_macro();
+        uses.push(u);
+    }
+    if sg.g.bool(1, 6) {
+        uses.push(sg.add_letcode_macro());
+    }
+    // use the last macro always, the earlier ones sometimes
+    let last = uses.pop().unwrap();
+    sg.uses.push(last);
+    for u in uses {
+        if sg.g.coin() {
+            sg.uses.push(u);
+        }
+    }
+    if avoid_splice {
+        let mut bs = vec![];
+        for f in &sg.fns {
+            binders_m(&f.body, &mut bs);
+        }
+        sg.avoid = bs.into_iter().map(|b| b.0).collect();
+    }
+    let in_fn = sg.g.bool(1, 4);
+    let body = sg.top_body(in_fn);
+    let case = sg.finish(body, in_fn);
+    let avoided = sg.avoided;
+    let n = *g.pick(&[3u64, 1, 2, 4]);
+    let naive = expand(&case, false).ok()?;
+    let hyg = expand(&case, true).ok()?;
+    let rh = resolve(&bodies(&hyg), false, false);
+    let cap_splice = capture_kind(&resolve(&bodies(&naive), false, false), &rh);
+    let cap_leak = capture_kind(&resolve(&bodies(&naive), true, false), &rh);
+    let cap_feed = capture_kind(&resolve(&bodies(&naive), true, true), &rh);
+    let mut forms = BTreeSet::new();
+    // a program with staging constructs is quoted as a whole, so every nested tuple pattern counts
+    if let Some(k) = &case.kfn {
+        forms_x(k, true, &mut forms);
+    }
+    forms_x(&case.dsp, true, &mut forms);
+    for f in &case.fns {
+        forms_m(&f.body, &mut forms);
+    }
+    let dt_sensitive = forms.contains("q:let-nested-tuple") && render_staged(&case, false).contains("__dt0");
+    Some(G10 { case, naive, hyg, cap_splice, cap_leak, cap_feed, dt_sensitive, n, in_fn, avoided })
+}
+
+fn finish(p: &str, renamed: &str, hygienic: Option<&str>, n: u64, sig_differs: &str, sig_accept: &str, classes: Vec<String>, nontrivial: bool, cx: &Cx) -> CaseResult {
+    let key = format!("{p}\u{1}{n}");
+    let hash = hash64(key.as_bytes());
+    let direct = json!({"p": p, "renamed": renamed, "hygienic": hygienic, "n": n, "sig_differs": sig_differs, "sig_accept": sig_accept});
+    if cx.dry {
+        let mut r = CaseResult::discard("dry");
+        r.render = Some(direct.clone());
+        r.direct = Some(direct);
+        return r;
+    }
+    let model = match sig_differs.split(':').nth(1).unwrap_or("") {
+        "capture" if sig_differs.ends_with(":unmodelled") => "unmodelled",
+        "capture" => "substitution",
+        "scope-leak" => "block-leak",
+        "self-captured" => "self",
+        "compiler-temp-capture" => "compiler-temp",
+        _ => "unmodelled",
+    };
+    let o = judge(p, renamed, hygienic, n, sig_differs, sig_accept, model);
+    if let Some(w) = &o.discard {
+        let mut r = CaseResult::discard(w.split(':').next().unwrap_or("discard").to_string());
+        r.count(&format!("discard:{w}"), 1);
+        r.direct = Some(direct);
+        return r;
+    }
+    let mut r = match &o.fail {
+        Some((s, m)) => CaseResult::fail(hash, s.clone(), m.clone()),
+        None => CaseResult::held(hash),
+    };
+    r.classes = classes;
+    if o.compiled {
+        r.classes.push("compiled".into());
+    }
+    if o.both_rejected {
+        r.classes.push("both-rejected".into());
+    }
+    if o.hygienic_compared {
+        r.classes.push("hygienic-expansion-compared".into());
+    }
+    r.nontrivial = (nontrivial && o.compiled) || r.is_fail();
+    if cx.render || r.is_fail() {
+        r.render = Some(direct.clone());
+    }
+    r.direct = Some(direct);
+    r
+}
+
+// ---- hand-written probes of names the compiler itself synthesises (space "temps") ----------
+
+struct Probe {
+    label: &'static str,
+    name: &'static str,
+    kf: &'static str,
+    /// source with @N@ where the user's variable is named
+    tpl: &'static str,
+}
+
+const PROBES: &[Probe] = &[
+    Probe { label: "dt-in-argument", name: "__dt0", kf: KF_DT, tpl: "#stage(macro)\nfn m(a){\n  `{\n    let ((p, q), r) = ((1.0, 2.0), 3.0)\n    (p + $a)\n  }\n}\n#stage(main)\nfn dsp(){\n  let @N@ = 100.0\n  m!(`@N@)\n}\n" },
+    Probe { label: "dt-after-expansion", name: "__dt0", kf: KF_DT, tpl: "#stage(macro)\nfn m(a){\n  `{\n    let ((p, q), r) = ((1.0, 2.0), 3.0)\n    (p + $a)\n  }\n}\n#stage(main)\nfn dsp(){\n  let @N@ = 100.0\n  let u = m!(`1.0)\n  (u + @N@)\n}\n" },
+    Probe { label: "dt-quote-in-place", name: "__dt0", kf: KF_DT, tpl: "fn dsp(){\n  let @N@ = 100.0\n  $(`{\n    let ((p, q), r) = ((1.0, 2.0), 3.0)\n    (p + @N@)\n  })\n}\n" },
+    Probe { label: "dt-lambda-scope", name: "__dt0", kf: KF_DT, tpl: "#stage(macro)\nfn m(a){\n  `((|z| {\n    let ((p, q), r) = ((z, 2.0), 3.0)\n    (p + $a)\n  })(1.0))\n}\n#stage(main)\nfn dsp(){\n  let @N@ = 100.0\n  m!(`@N@)\n}\n" },
+    Probe { label: "feed-in-macro-body", name: "feed_id0", kf: KF_FEED, tpl: "#stage(macro)\nfn m(a){\n  `{\n    let @N@ = 10.0\n    ($a + @N@)\n  }\n}\n#stage(main)\nfn dsp(){\n  m!(`(self + 1.0))\n}\n" },
+    Probe { label: "feed-quote-in-place", name: "feed_id0", kf: KF_FEED, tpl: "fn dsp(){\n  $(`{\n    let @N@ = 10.0\n    ((self + 1.0) + @N@)\n  })\n}\n" },
+    Probe { label: "feed-lambda-depth-1", name: "feed_id1", kf: KF_FEED, tpl: "#stage(macro)\nfn m(a){\n  `((|@N@| (self + @N@) + $a)(1.0))\n}\n#stage(main)\nfn dsp(){\n  m!(`2.0)\n}\n" },
+    Probe { label: "lambda-arg-macro-pipe", name: "__lambda_arg_0", kf: "", tpl: "fn h2(x, y){\n  x - y * 0.25\n}\nfn dsp(){\n  let @N@ = 2.0\n  @N@ ||> h2(_, @N@)\n}\n" },
+    Probe { label: "lambda-arg-macro-pipe-in-quote", name: "__lambda_arg_0", kf: "", tpl: "fn h2(x, y){\n  x - y * 0.25\n}\n#stage(macro)\nfn m(a){\n  `{\n    let @N@ = 2.0\n    ($a ||> h2(_, @N@))\n  }\n}\n#stage(main)\nfn dsp(){\n  m!(`3.0)\n}\n" },
+    Probe { label: "record-update-in-macro", name: "record_update_temp", kf: KF_RECUPD, tpl: "#stage(macro)\nfn m(a){\n  `{\n    let r = {a = 1.0, b = 2.0}\n    let r2 = {r <- a = $a}\n    r2.a\n  }\n}\n#stage(main)\nfn dsp(){\n  let @N@ = 5.0\n  m!(`@N@)\n}\n" },
+    // controls: an ordinary name in the same places must (and does) behave
+    Probe { label: "control-ordinary-name", name: "t", kf: "", tpl: "fn dsp(){\n  let @N@ = 100.0\n  $(`{\n    let ((p, q), r) = ((1.0, 2.0), 3.0)\n    (p + @N@)\n  })\n}\n" },
+];
+
+impl Prop for C10 {
+    fn id(&self) -> &'static str {
+        "C10"
+    }
+    fn spaces(&self, tier: Tier) -> Vec<Space> {
+        let a = "macros whose quoted bodies bind locals (let, tuple patterns, lambda parameters) around or next to splices, used from code whose names come from a small colliding pool; original vs binder-renamed program";
+        let b = "the same generator restricted (by re-drawing) to programs for which name-based substitution with the repository's known scoping agrees with capture-avoiding expansion: collisions that must be harmless";
+        let c = "hand-written probes of compiler-synthesised names (__dt0, feed_id0, __lambda_arg_0, record_update_temp), one fresh process per case; the user's variable is renamed";
+        let (na, nb) = match tier {
+            Tier::Quick => (1200, 1100),
+            Tier::Thorough => (30_000, 70_000),
+        };
+        vec![
+            Space { name: "all", size: na, exhaustive: false, chunk: 100, case_timeout_s: 30.0, what: a },
+            Space { name: "agree", size: nb, exhaustive: false, chunk: 100, case_timeout_s: 30.0, what: b },
+            Space { name: "temps", size: PROBES.len() as u64, exhaustive: true, chunk: 1, case_timeout_s: 30.0, what: c },
+        ]
+    }
+    fn run(&self, space: &str, index: u64, g: &mut Gen, cx: &Cx) -> CaseResult {
+        if space == "temps" {
+            let Some(pr) = PROBES.get(index as usize) else { return CaseResult::discard("index") };
+            let p = pr.tpl.replace("@N@", pr.name);
+            let renamed = pr.tpl.replace("@N@", "w9");
+            let sig = format!("c10:compiler-temp-capture:{}", pr.name);
+            let mut r = finish(&p, &renamed, None, 3, &sig, &sig, vec![format!("probe:{}", pr.label), format!("name:{}", pr.name)], true, cx);
+            if let Status::Fail { sig: s, .. } = &r.status {
+                // a crash of the original caused by the collision is the same root cause
+                let same_root = *s == sig || s.starts_with("c10:panic:");
+                if !cx.strict && !pr.kf.is_empty() && cx.excluded(pr.kf) && same_root {
+                    let mut h = CaseResult::held(r.hash);
+                    h.classes = std::mem::take(&mut r.classes);
+                    h.classes.push("tolerated-known-finding".into());
+                    h.direct = r.direct.take();
+                    h.count(&format!("excluded_by_known_finding:{}", pr.kf), 1);
+                    h.nontrivial = true;
+                    return h;
+                }
+            }
+            return r;
+        }
+        let active = |kf: &str| !cx.strict && cx.excluded(kf);
+        let agree = space == "agree";
+        let mut counters: Vec<(String, u64)> = vec![];
+        let mut bump = |k: String| {
+            if let Some(e) = counters.iter_mut().find(|(kk, _)| *kk == k) {
+                e.1 += 1;
+            } else {
+                counters.push((k, 1));
+            }
+        };
+        let mut chosen: Option<G10> = None;
+        let tries = if agree { 40 } else { 1 };
+        for _ in 0..tries {
+            // in the restricted space the generator itself keeps macro binder names out of argument code
+            // (never dependent on strictness: a tape always decodes to the same case)
+            let Some(c) = gen10(g, agree) else {
+                bump("generator-error".into());
+                continue;
+            };
+            if c.avoided > 0 {
+                bump("draws-with-a-name-withheld-from-argument-code".into());
+            }
+            if agree {
+                if c.cap_splice.is_some() || c.cap_leak.is_some() || c.cap_feed.is_some() || c.dt_sensitive {
+                    bump("redrawn:model-predicts-capture".into());
+                    continue;
+                }
+            }
+            chosen = Some(c);
+            break;
+        }
+        let Some(c) = chosen else {
+            let mut r = CaseResult::discard("no-draw");
+            r.counters = counters;
+            return r;
+        };
+        // known-finding exclusions (space "all"): skip the cases whose outcome the known defects decide
+        let verdict_kf = if c.cap_splice.is_some() {
+            Some(KF_SPLICE)
+        } else if c.cap_leak.is_some() {
+            Some(KF_LEAK)
+        } else if c.cap_feed.is_some() {
+            Some(KF_FEED)
+        } else if c.dt_sensitive {
+            Some(KF_DT)
+        } else {
+            None
+        };
+        if let Some(kf) = verdict_kf {
+            if active(kf) {
+                let mut r = CaseResult::discard("excluded-by-known-finding");
+                r.counters = counters;
+                r.count(&format!("excluded_by_known_finding:{kf}"), 1);
+                return r;
+            }
+        }
+        let p = render_staged(&c.case, false);
+        let renamed_case = Case { fns: rename_macro_binders(&c.case.fns), ..c.case.clone() };
+        let renamed = render_staged(&renamed_case, false);
+        let hygienic = render_plain(&c.hyg.0, &c.hyg.1);
+        // class labels and the non-triviality rule
+        let mut mb: Vec<(String, &'static str)> = vec![];
+        for f in &c.case.fns {
+            binders_m(&f.body, &mut mb);
+        }
+        let mnames: BTreeSet<String> = mb.iter().map(|b| b.0.clone()).collect();
+        let mut surround: BTreeSet<String> = BTreeSet::new();
+        if let Some(k) = &c.case.kfn {
+            names_x(k, &mut surround);
+        }
+        names_x(&c.case.dsp, &mut surround);
+        let mut free_in_args: BTreeSet<String> = BTreeSet::new();
+        collect_arg_fv(&c.case.dsp, &mut free_in_args);
+        if let Some(k) = &c.case.kfn {
+            collect_arg_fv(k, &mut free_in_args);
+        }
+        let mut classes: Vec<String> = vec![];
+        for k in mb.iter().map(|b| b.1).collect::<BTreeSet<_>>() {
+            classes.push(format!("binder:{k}"));
+        }
+        let col_s: Vec<&String> = mnames.intersection(&surround).collect();
+        let col_a: Vec<&String> = mnames.intersection(&free_in_args).collect();
+        if !col_s.is_empty() {
+            classes.push("collide:surrounding-code".into());
+        }
+        if !col_a.is_empty() {
+            classes.push("collide:spliced-argument".into());
+        }
+        for nme in col_s.iter().chain(col_a.iter()) {
+            classes.push(format!("name:{nme}"));
+        }
+        classes.sort();
+        classes.dedup();
+        classes.push(format!("site:{}", if c.in_fn { "fn" } else { "dsp" }));
+        if c.cap_splice.is_some() {
+            classes.push("model:capture-by-substitution".into());
+        } else if c.cap_leak.is_some() {
+            classes.push("model:capture-by-block-leak".into());
+        } else if c.cap_feed.is_some() {
+            classes.push("model:capture-of-self".into());
+        } else {
+            classes.push("model:no-capture".into());
+        }
+        let nontrivial = !col_s.is_empty() || !col_a.is_empty();
+        let sig = match (c.cap_splice, c.cap_leak, c.cap_feed) {
+            (Some(k), _, _) => format!("c10:capture:{k}"),
+            (None, Some(k), _) => format!("c10:scope-leak:{k}"),
+            (None, None, Some(k)) => format!("c10:self-captured:{k}"),
+            _ if c.dt_sensitive => "c10:compiler-temp-capture:__dt0".to_string(),
+            _ => "c10:capture:unmodelled".to_string(),
+        };
+        // the hand expansion is only an oracle where the known defects of the plain language do not
+        // already decide it: it is compared whenever the model predicts no capture, and in strict mode
+        let mut r = finish(&p, &renamed, Some(&hygienic), c.n, &sig, "c10:accept-differs", classes, nontrivial, cx);
+        for (k, v) in counters {
+            r.count(&k, v);
+        }
+        r
+    }
+    fn run_direct(&self, input: &Value, cx: &Cx) -> Option<CaseResult> {
+        let p = input.get("p")?.as_str()?;
+        let renamed = input.get("renamed")?.as_str()?;
+        let hyg = input.get("hygienic").and_then(|v| v.as_str());
+        let n = input.get("n").and_then(|v| v.as_u64()).unwrap_or(3);
+        let sd = input.get("sig_differs").and_then(|v| v.as_str()).unwrap_or("c10:capture:direct");
+        let sa = input.get("sig_accept").and_then(|v| v.as_str()).unwrap_or("c10:accept-differs");
+        Some(finish(p, renamed, hyg, n, sd, sa, vec!["mode:direct".into()], true, cx))
+    }
+    fn rule(&self) -> String {
+        "Spaces `all` and `agree`: a case is a program with 1-3 `#stage(macro)` functions with code parameters whose quoted bodies bind locals (let, tuple and nested tuple patterns, lambda parameters, let-bound functions) around or next to their splices (optionally handing their parameters on to another macro or through a macro-stage let), used 1-3 times from dsp or from a stage-1 function; every binder name in the macro bodies, the argument code and the surrounding code is drawn from a pool of 9 names (t, x, acc, y, the compiler's own __dt0, feed_id0, __lambda_arg_0, record_update_temp, and g0 — a stage-1 global that macro bodies mention free, so the surrounding code can also capture a macro's free variable), so collisions are the norm. P' = P with every binder inside the macro bodies renamed to a globally fresh name (scope-aware renaming by the harness). Oracle (VM): P and P' are accepted alike and every output word of 1-4 samples is bitwise equal; secondary: P equals its capture-avoiding expansion computed by the harness (every binder instantiation fresh). The harness also computes what name-based substitution would bind (with proper block scoping, with the repository's leaking block scoping, and with `self` as a variable named feed_id<depth>); a disagreement with the capture-avoiding binding structure attributes a failure to a known root cause (signature c10:capture:<binder kind> / c10:scope-leak:<kind> / c10:self-captured:<kind>), and in non-strict mode such cases are skipped and counted. Space `agree` re-draws until those models predict no capture (a domain restriction, independent of strictness), so every collision in it must be harmless; a failure there is an unmodelled defect. Space `temps`: hand-written programs in which a user variable carries a name the compiler synthesises inside quoted code; the user's variable is renamed (each case in a fresh process because the __dt counter is per thread). Non-trivial = the program compiled and a macro-body binder's name occurs free in a spliced argument or anywhere in the surrounding code. Distinct by source + run length.".into()
+    }
+    fn assumptions(&self) -> Vec<String> {
+        vec![
+            "scope-aware renaming and capture-avoiding expansion are done by the harness over its own AST (trusted)".into(),
+            "argument code contains no bare `self` (its owner would change when spliced under a quoted lambda)".into(),
+            "the binding models used for attribution/exclusion (name-based substitution; let visible until the end of the enclosing function; self = feed_id<lambda depth>) describe recorded findings, they are not the oracle".into(),
+            "both-rejected programs count as agreement".into(),
+        ]
+    }
+    fn required_classes(&self, _tier: Tier) -> Vec<&'static str> {
+        vec![
+            "compiled", "binder:let", "binder:lambda", "binder:tuple", "binder:nested-tuple", "binder:let-fn", "collide:surrounding-code", "model:no-capture", "hygienic-expansion-compared", "site:fn", "site:dsp", "name:t", "name:__dt0", "name:feed_id0", "name:__lambda_arg_0",
+            "name:record_update_temp", "probe:dt-in-argument", "probe:feed-in-macro-body", "probe:record-update-in-macro", "probe:lambda-arg-macro-pipe", "probe:control-ordinary-name",
+        ]
+    }
+}
+
+/// free names of the quoted arguments handed to macro calls
+fn collect_arg_fv(x: &X, out: &mut BTreeSet<String>) {
+    fn m(mm: &M, out: &mut BTreeSet<String>) {
+        match mm {
+            M::Call(_, args, _) => {
+                for a in args {
+                    if let A::C(am) = a {
+                        fv_m(am, &mut vec![], out);
+                    }
+                }
+            }
+            M::Quote(x) => collect_arg_fv(x, out),
+            M::Let(_, a, b) | M::IfN(_, a, b) => {
+                m(a, out);
+                m(b, out);
+            }
+            M::CVar(_) | M::Lift(..) => {}
+        }
+    }
+    match x {
+        X::Num(_) | X::Var(_) | X::SelfRef | X::Now | X::SampleRate => {}
+        X::Pipe(a, _) | X::Lam(_, a) | X::Proj(a, _) => collect_arg_fv(a, out),
+        X::Bin(_, a, b) | X::Set(_, a, b) | X::Let(_, a, b) => {
+            collect_arg_fv(a, out);
+            collect_arg_fv(b, out);
+        }
+        X::Call(_, args) | X::Tuple(args) => args.iter().for_each(|a| collect_arg_fv(a, out)),
+        X::If(c, t, e) => {
+            collect_arg_fv(c, out);
+            collect_arg_fv(t, out);
+            collect_arg_fv(e, out);
+        }
+        X::App(f, args) => {
+            collect_arg_fv(f, out);
+            args.iter().for_each(|a| collect_arg_fv(a, out));
+        }
+        X::Splice(mm) => m(mm, out),
+    }
 }
